@@ -6,6 +6,8 @@ the composition.  (a) fully symbolic short strings against an independent
 maximal-munch tokenizer (no regular expressions)."""
 from typing import List
 
+import copy
+
 import prelude  # noqa: F401
 from naunet.species import Species
 
@@ -38,7 +40,24 @@ def _expected(parts, charge):
     return ec, q
 
 
+def _copy_reads_alike(sp):
+    """a copy of a species (what the patch renderers work on) reads the name exactly as the original did; a copy
+    that is refused with an error (renamed upper-case names are re-parsed against the user's list) is not a mis-read"""
+    try:
+        c = copy.copy(sp)
+    except Exception:
+        return True
+    return _same_reading(c, sp)
+
+
+def _same_reading(a, b):
+    return (dict(a.element_count) == dict(b.element_count) and a.charge == b.charge and bool(a.is_surface) == bool(b.is_surface) and bool(a.is_grain) == bool(b.is_grain)
+            and a.name == b.name and a.basename == b.basename and a.gasname == b.gasname and bool(a.is_atom) == bool(b.is_atom) and a.alias == b.alias and a == b)
+
+
 def _agree(sp, ec, q, surface, gas):
+    if not _copy_reads_alike(sp):
+        return False
     if dict(sp.element_count) != ec or sp.charge != q:
         return False
     if bool(sp.is_surface) != surface:
@@ -220,7 +239,7 @@ def grain_symbols_with_group_numbers(v: List[int]) -> bool:
         q = ch.count("+") - ch.count("-")
         group = int(grp) if grp else 0
         # a grain is one particle whatever its group number: the number is a label (size bin), not a count
-        return (bool(sp.is_grain) and sp.charge == q and dict(sp.element_count) == {sym: 1} and sp.grain_group == group and sp.n_atoms == 1
+        return (_copy_reads_alike(sp) and bool(sp.is_grain) and sp.charge == q and dict(sp.element_count) == {sym: 1} and sp.grain_group == group and sp.n_atoms == 1
                 and bool(sp.is_atom) == (q == 0) and not sp.is_surface and not sp.is_electron and sp.basename == f"{sym}{grp}")
 
 
